@@ -9,6 +9,10 @@ use std::ops::{
 use serde::Serialize;
 use smallvec::SmallVec;
 
+#[cfg(eigerco_lumina_verif)]
+#[path = "block_ranges_verif_hooks.rs"]
+pub mod verif_hooks;
+
 /// Type alias of [`RangeInclusive<u64>`].
 ///
 /// [`RangeInclusive<u64>`]: std::ops::RangeInclusive
